@@ -502,7 +502,7 @@ def b_native(B):
                     if not np.array_equal(a[n, :], c[n, :]) or not np.array_equal(a[n, 5], c[n, 5]):
                         bad.append(("int", n))
                 # the same integer held in a NumPy scalar (an index taken from an array of spike times, say), alone and with a channel selector
-                for n in (0, chunk - 1, chunk, ns - 1, -1):
+                for n in sorted({n_ for n_ in (0, chunk - 1, chunk, ns - 1, -1) if -ns <= n_ < ns}):       # valid integer indices only
                     for ty in (np.int64, np.int32, np.intp):
                         try:
                             r_a, r_c = a[ty(n)], c[ty(n)]
